@@ -18,6 +18,7 @@ def P(qr, qw, tr, tw, **kw):
 PLAN = {
     "C01": P(6000, 75, 200000, 900),
     "C02": P(5000, 75, 150000, 900),
+    "C15": P(400, 100, 20000, 1200, chunk=100, race_runs_quick=16, race_runs_thorough=3000),
     "C18": P(2000, 90, 60000, 900, chunk=200),
     "C17": P(1500, 90, 40000, 900, chunk=150),
     "C05": P(1500, 90, 40000, 900, chunk=150),
@@ -37,6 +38,11 @@ PLAN = {
 }
 
 LEVELS = {
+    "C15": {"level": "exploration", "rule": RULE + "; mode B (race-stress) runs are real parallel executions under the race detector and are counted separately in coverage.race_mode_runs",
+            "text": "mode A (simulation): 2..16 client tasks run uploads to two repositories, split uploads into an open diamond, a download, label sets, a listing and the commit of a complete diamond concurrently on shared buckets, all contents drawn from a 5-value pool (heavy dedup), under the seeded scheduler; every operation must complete (no deadlock, bounded steps) and produce the result it produces alone (bundles download to their sources, the download equals the bundle, labels resolve, the commit is the merge, every split is done). Mode B (runtime detection, not simulation): the same seeded workloads with the scheduler off and real parallelism, in a -race build; a race report is a violation",
+            "note": "the scheduler's hand-offs create happens-before edges that blind the race detector across clients in mode A, hence mode B; a race found by mode B is reported with the detector's output and the seed, its replay is a re-run of that seed (not guaranteed to reproduce)",
+            "components": {"real": ["pkg/core", "pkg/cafs", "pkg/storage/localfs"], "stub": STUB},
+            "assumptions": []},
     "C18": {"level": "exploration", "rule": RULE + "; here a run is one random operation program (<= 60 operations) followed by a scheduled commit and download",
             "text": "random programs of CreateFile, MkDir, WriteFile, SetInodeAttributes(size), ReadFile (also across EOF, as page-sized kernel reads are), LookUpInode (existing and missing names), Unlink, RmDir (empty and non-empty), Rename (onto a free name, file onto file), GetInodeAttributes + ReadDir, and ForgetInode with the kernel's counting (all references of an unlinked node; of a live node under cache pressure, followed later by a fresh lookup) over 4 names, on a real staging directory; each answer (success / errno, inode, type, size, bytes, directory content) is compared with a reference POSIX tree and no two live entries may share an inode; the mount is then committed into the simulated stores under the scheduler and the bundle downloaded: its files equal the visible tree",
             "note": "only requests a kernel can send are generated (the VFS answers EEXIST / EISDIR / ENOTDIR / same-entry renames itself; directory-over-directory renames are not generated); a fatal Go error or a panic outside the caller's goroutine kills the worker and is reported with its seed",
